@@ -2,6 +2,7 @@ import YardlProofs.WirePrefix
 import YardlProofs.StreamsR
 import YardlProofs.PyStreamR
 import YardlProofs.PyStreamSeq
+import YardlProofs.CppStreamSeq
 
 /-!
 # C16 — A truncated stream is reported, never mistaken for a complete one
@@ -69,6 +70,18 @@ theorem verify_finished_iff (s : CIS) (hc : 0 < s.cap) (hinv : s.Inv) :
     (s.pending = [] → ∃ s', s.verifyFinished = .ok () s') ∧
     (s.pending ≠ [] → s.verifyFinished = .notFinished) :=
   ⟨CIS.verifyFinished_ok s hc hinv, CIS.verifyFinished_leftover s hc hinv⟩
+
+/-- **A truncated stream ends in `EndOfStreamException` in the C++ input stream** — over whole read sequences: whatever
+    strict prefix of the written data the stream holds (cut between two items or inside one), for every capacity ≥ 10 and
+    every split of that prefix between window and underlying stream. -/
+theorem cpp_reader_truncated_sequence_is_eos (items : List CItem) (s : CIS) (hc : 10 ≤ s.cap) (hinv : s.Inv)
+    (hi : ∀ i ∈ items, i.ok) (more : Bytes) (hm : more ≠ []) (hp : s.pending ++ more = encCItems items) :
+    s.readItems items = .eos :=
+  CIS.readItems_cut items s hc hinv hi more hm hp
+
+/-- non-vacuity: 300 as a varint cut after its first byte, behind a complete byte -/
+example : (⟨10, [7, 0xac], false, []⟩ : CIS).pending ++ [0x02] = encCItems [.byte 7, .var64 300] := by
+  simp [CIS.pending, encCItems, CItem.enc, encVar]
 
 /-! ### the Python reader -/
 
